@@ -52,7 +52,8 @@ theorem stdTable_sound : NameTableSound stdTable := by
     simp only [stdTable] at h ⊢
     split at h
     · injection h with h; subst h
-      have : (10 ≤ 10 + p ∧ 10 + p < 15) ∨ (30 ≤ 10 + p ∧ 10 + p < 36) := by omega
+      have : (10 ≤ 10 + p ∧ 10 + p < 15) ∨ (30 ≤ 10 + p ∧ 10 + p < 36) ∨
+          (50 ≤ 10 + p ∧ 10 + p < 70) := by omega
       simp only [this, if_true]
       congr 1; omega
     · cases h
